@@ -486,6 +486,7 @@ type vfC07Run struct {
 	// want is what the caller wrote into it, kept apart, so that any write of the library shows
 	back, want []protocol.ID
 	wantLen    int
+	delayed    bool // some closure was told to answer late: let it finish before the bubble ends
 	damaged    bool // the library wrote into the array; the application goes on using it until it rewrites it
 	t      *testing.T
 }
@@ -619,6 +620,12 @@ func (r *vfC07Run) teardown() {
 		if x != nil {
 			x.s.Reset()
 		}
+	}
+	if r.delayed {
+		// a closure that was told to answer late may still be asleep when its stream has failed (a bubble must
+		// not end with sleepers): let virtual time pass
+		time.Sleep(2 * time.Minute)
+		synctest.Wait()
 	}
 	for _, name := range r.cfg.Hosts {
 		r.nodes[name].Close()
@@ -1051,6 +1058,7 @@ func (r *vfC07Run) finish(op vfh.Op) {
 	dl := vfC07Dur(op.S("dl"))
 	x.ll.delay.Store(int64(dl))
 	defer x.ll.delay.Store(0)
+	r.delayed = r.delayed || dl > 0
 	// the APPLICATION's own deadline: far beyond the responder's delay, so only a hang gets there (virtual time)
 	x.s.SetDeadline(time.Now().Add(dl + 30*time.Second))
 	if m == "wcw" {
